@@ -442,3 +442,42 @@ def run_colidx(prog, rep):
     if n < 2:
         raise AnalysisBroken('R-COLIDX: only %d column subscripts found' % n)
     return rule
+
+
+def run_stale_size(prog, rep):
+    """a count taken from a container is not used after that container was replaced/filled (the count then describes the old content)"""
+    sem = Sem(prog)
+    rule = rep.rule('R-STALE', 'a local that holds the size of a container is not used after the container was (re)filled', floor=5)
+    n = 0
+    for f in sorted(prog.funcs.values(), key=lambda f: (f.file, f.line)):
+        if f.body is None or not f.q.startswith('nix::') and not (f.file and not prog.rel(f.file).startswith('/')):
+            continue
+        if f.q.startswith('std::') or f.q.startswith('boost::'):
+            continue
+        lv = sem.local_vars(f)
+        mods = sem.mods(f)
+        for lid, v in lv.items():
+            if not v.c or v.c[0] is None:
+                continue
+            t = term(unwrap(v.c[0]))
+            # n = X.size()   (possibly wrapped in a cast / fits_in_size_t)
+            szs = [c for c in v.c[0].walk() if c.k == 'call' and c.get('member') and (c.callee or {}).get('name') == 'size' and c.c and unwrap(c.c[0]).k == 'ref' and unwrap(c.c[0]).decl.get('kind') in ('local', 'param')]
+            if len(szs) != 1 or len([x for x in v.c[0].walk() if x.k == 'call']) > 2:
+                continue
+            X = unwrap(szs[0].c[0]).decl
+            if mods.get(lid) and any(m.id > v.id for m in mods[lid]):
+                continue       # the count itself is updated later: not a frozen copy
+            n += 1
+            refills = [m for m in mods.get(X.get('lid'), []) if m.id > v.id and (m.k == 'assign' or (m.k == 'call' and m.get('op') == '=')) and unwrap(m.c[0]).k == 'ref']
+            stale = []
+            for m in refills:
+                uses = [r for r in f.walk() if r.k == 'ref' and r.decl.get('lid') == lid and r.id > max(x.id for x in m.walk())]
+                if uses:
+                    stale.append((m, uses[0]))
+            key = '%s|%s=%s.size()' % (re.sub(r'<.*', '', f.q) + '(%d)' % len(f.params), v.get('name'), X.get('name'))
+            rule.check(not stale, key, rep.where(v), f.label(), '%s is not used after %s is replaced' % (v.get('name'), X.get('name')),
+                       '%s was taken from %s.size() at line %s, %s is then replaced (line %s) and %s is still used at line %s: it describes the old content (e.g. 0 labels for a lazily loaded label list, making the axis unbounded)' % (
+                           v.get('name'), X.get('name'), v.l, X.get('name'), stale[0][0].l if stale else '', v.get('name'), stale[0][1].l if stale else ''))
+    if n < 5:
+        raise AnalysisBroken('R-STALE: only %d size-holding locals found' % n)
+    return rule
